@@ -18,8 +18,17 @@ package engines
 // tag, never demanded — the property only says delivery works AGAIN) | `fini` (always appended; followed by the
 // inertness checks).  postat=E: the posters start once eventQ holds E events (PostEvent at capacity-1 / capacity from
 // several goroutines); rzs=WxH: a size change + notification while a Suspend call is in progress.
+// `userquit` closes the quit channel the application handed to ChannelEvents while the screen lives on (the consumer then goes
+// on with PollEvent): the events that arrive keep the input order, at most the one event ChannelEvents had already dequeued
+// is missing.  `disablepaste` / `enablepaste`; `checktail` (the batch of op `more`, injected after everything earlier was
+// consumed, is the tail of what was delivered: a complete paste comes out as START text END whatever preceded it).
 // `free` releases every goroutine from the controller for the rest of the case (real Go scheduling; the trace ends there),
 // `sleep MS` (free running only), `freecheck` (free running only: every injected event arrives, exactly once, in order).
+//
+// Real-time input (free running only; engine `pipeesc`, C02): `inj HEX` hands bytes to the tty now, `sleep MS`, `esccheck`
+// (the input so far ends in an incomplete sequence and nothing more arrives: within 3 s = 60 escape timeouts every byte read
+// must have been turned into events — every legal decoding is accepted, bytes still buffered are not), `keycheck DESC` (a
+// complete key read after that decodes on its own).
 //
 // Observation: `ok` (the Lean driver answers `ok` for a well-formed line); a controller problem is printed as
 // `ERROR …` and therefore shows up as a correspondence break, never as a finding.  The trace of schedule points is
@@ -49,6 +58,10 @@ import (
 
 func init() {
 	h.Register(&h.Engine{Name: "pipe", Rule: "distinct (scenario, schedule seed) reaching a shutdown with recorded queue fill levels", Gen: genPipe, Exec: execPipe})
+	h.Register(&h.Engine{Name: "pipepaste", Rule: "the real screen under the schedule controller: a paste whose end marker is lost (Suspend+Resume or DisablePaste/EnablePaste in the middle of it), then a complete paste in random chunkings; distinct = distinct line; non-trivial = the tail check ran",
+		Gen: genPipePaste, Exec: execPipe})
+	h.Register(&h.Engine{Name: "pipeesc", Rule: "the real screen free running in real time: an incomplete escape sequence read in 2-3 pieces 5-20 ms apart, silence, then complete keys; distinct = distinct line; non-trivial = the escape-timeout check ran",
+		Gen: genPipeEsc, Exec: execPipe})
 }
 
 // ---- the sched binary ----------------------------------------------------------------------------------------
@@ -225,7 +238,7 @@ func execPipe(line string) h.Result {
 	}
 	res := h.Result{Obs: o.Obs, Findings: o.Findings, Tags: o.Tags}
 	for _, t := range o.Tags {
-		if strings.Contains(t, "-fill-") {
+		if strings.Contains(t, "-fill-") || t == "esc-check" || t == "tail-check" || t == "resume-check" {
 			res.Nontrivial = true
 		}
 	}
@@ -546,6 +559,67 @@ func genPipeOne(r *h.Rand, kind int) string {
 		}
 		return hdr(steps, exp, expat, fmt.Sprintf("cons=%s stop=%d %s draw=0", ppCons(r), r.Range(0, 12), ps)) +
 			fmt.Sprintf(" ; free ; sleep %d ; unpause ; freecheck ; fini", r.Range(5, 40))
+	case 9: // a paste whose end marker is lost (Suspend+Resume, or DisablePaste/EnablePaste, in the middle of it), then a complete paste
+		items := ppItems(r, r.Range(0, 6), r.Chance(40), 0)
+		items = append(items, ppItem{[]byte("\x1b[200~"), "P1"})
+		items = append(items, ppItems(r, r.Range(0, 8), false, 20)...)
+		if r.Chance(25) { // the truncated paste may itself follow a complete one
+			items = append([]ppItem{{[]byte("\x1b[200~"), "P1"}, {[]byte("x"), "K256.120.0"}, {[]byte("\x1b[201~"), "P0"}}, items...)
+		}
+		steps, exp, expat := ppFeed(r, items, 3, 20, 0, -1)
+		var items2 []ppItem
+		items2 = append(items2, ppItems(r, r.Range(0, 2), false, 40)...)
+		items2 = append(items2, ppItem{[]byte("\x1b[200~"), "P1"})
+		items2 = append(items2, ppItems(r, r.Range(1, 8), r.Chance(30), 50)...)
+		items2 = append(items2, ppItem{[]byte("\x1b[201~"), "P0"})
+		items2 = append(items2, ppItems(r, r.Range(0, 2), false, 70)...)
+		steps2, exp2, _ := ppFeed(r, items2, 4, 20, 0, -1)
+		ops := " ; wait stall ; suspend ; resume ; more ; check2 ; fini"
+		switch r.Intn(4) {
+		case 0:
+			ops = " ; wait stall ; disablepaste ; enablepaste ; more ; checktail ; fini"
+		case 1:
+			ops = " ; wait stall ; suspend ; resume ; wait stall ; suspend ; resume ; more ; check2 ; fini"
+		}
+		return hdr(steps, exp, expat, fmt.Sprintf("feed2=%s exp2=%s cons=%s stop=-1 pend=%d post=0 draw=%d", ppJoin(steps2), ppJoin(exp2), ppCons(r), r.Intn(2), r.Intn(2))) + ops
+	case 10: // real time: an incomplete sequence read in 2..3 pieces a few ms apart, then silence; then a complete key
+		pre := h.Pick(r, [][]string{{"1b", "5b"}, {"1b", "4f"}, {"1b", "1b"}, {"1b", "5b", "31"}, {"1b", "5b31", "3b"}, {"1b5b", "31"}, {"1b", "5b3c"}, {"1b", "5b", "32"},
+			{"1b", "5b32", "30"}, {"1b", "5d"}, {"1b", "50"}, {"1b5b31", "3b35"}, {"1b", "1b", "5b"}, {"1b", "5b", "3c33"}, {"61", "1b", "5b"}, {"1b", "5b33"}})
+		ops := " ; free"
+		for i, b := range pre {
+			if i > 0 {
+				ops += fmt.Sprintf(" ; sleep %d", r.Range(5, 20))
+			}
+			ops += " ; inj " + b
+		}
+		ops += " ; esccheck"
+		for k := r.Range(1, 2); k > 0; k-- {
+			if r.Chance(50) {
+				c := r.Range('A', 'Z')
+				ops += fmt.Sprintf(" ; inj %02x ; keycheck K256.%d.0", c, c)
+			} else {
+				key := h.Pick(r, ppKeys())
+				ops += fmt.Sprintf(" ; inj %s ; keycheck %s", h.Hex(key.b), key.desc)
+			}
+		}
+		return hdr(nil, nil, nil, "cons=poll stop=-1 pend=0 post=0 draw=0") + ops + " ; fini"
+	case 11: // the application closes the quit channel of ChannelEvents on a live screen (forward blocked or not), then polls
+		cn := r.Range(1, 3)
+		k := r.Range(0, 3)
+		absorbed := k + cn + 1 // delivered + in the channel + the one ChannelEvents holds
+		n := absorbed + r.Range(1, 8)
+		if r.Chance(20) {
+			n = absorbed + r.Range(9, 25) // the queue is full as well
+		}
+		items := ppItems(r, n, false, 0)
+		steps, exp, expat := ppFeed(r, items, 2, 0, 0, -1)
+		ops := " ; wait stall ; userquit ; wait stall ; unpause ; check ; fini"
+		stop := fmt.Sprintf("stop=%d", k)
+		if r.Chance(25) { // the consumer keeps reading: the quit arrives at some point of a running pipeline
+			stop = "stop=-1"
+			ops = fmt.Sprintf(" ; wait steps %d ; userquit ; check ; fini", r.Range(1, 60))
+		}
+		return hdr(steps, exp, expat, fmt.Sprintf("cons=chan:%d %s pend=0 post=0 draw=0", cn, stop)) + ops
 	default: // a read error somewhere, then steady check or a shutdown at a fill level
 		items := ppItems(r, r.Range(5, 40), false, 0)
 		nchunksGuess := len(items)/2 + 1
@@ -572,6 +646,29 @@ func genPipe(g *h.Gen) {
 	for i := 0; i < n; i++ {
 		kind := []int{0, 1, 2, 3, 2, 3, 0, 4, 5, 6, 7, 8}[i%12]
 		g.Emit("%s", genPipeOne(g.R, kind))
+	}
+	// the application's own quit channel closed on a live screen; a paste that loses its end marker
+	for i := g.N(40, 300); i > 0; i-- {
+		g.Emit("%s", genPipeOne(g.R, 11))
+	}
+	for i := g.N(10, 100); i > 0; i-- {
+		g.Emit("%s", genPipeOne(g.R, 9))
+	}
+	ppLines = append(ppLines, g.Lines...)
+}
+
+// engine pipepaste (C11): bracketed paste through the real screen's life cycle
+func genPipePaste(g *h.Gen) {
+	for i := g.N(24, 400); i > 0; i-- {
+		g.Emit("%s", genPipeOne(g.R, 9))
+	}
+	ppLines = append(ppLines, g.Lines...)
+}
+
+// engine pipeesc (C02): the escape timeout in real time
+func genPipeEsc(g *h.Gen) {
+	for i := g.N(18, 200); i > 0; i-- {
+		g.Emit("%s", genPipeOne(g.R, 10))
 	}
 	ppLines = append(ppLines, g.Lines...)
 }
